@@ -555,7 +555,8 @@ def _robust_gp_fit_(
                 "bads:_robust_gp_fit_: posterior GP update failed. Singular matrix for L Cholesky decomposition"
             )
             success_flag[i_try] = False
-            if i_try > options["remove_points_after_tries"] - 1:
+            # (never thin a training set that has only a couple of points left)
+            if i_try > options["remove_points_after_tries"] - 1 and len(Y) > 2:
                 idx_drop_out = np.zeros(len(Y)).astype(bool)
                 # Remove closest pair sample
                 dist = cdist(X, X)
@@ -575,6 +576,12 @@ def _robust_gp_fit_(
                 idx_drop_out = np.logical_or(
                     idx_drop_out, (Y > np.percentile(Y, 95)).flatten()
                 )
+                if np.sum(~idx_drop_out) < 2:
+                    # keep at least two points: drop only the closest-pair one
+                    idx_drop_out[:] = False
+                    idx_drop_out[
+                        idx_min[0] if Y[idx_min[0]] > Y[idx_min[1]] else idx_min[1]
+                    ] = True
                 X = X[~idx_drop_out]
                 Y = Y[~idx_drop_out]
                 # Remove also user specified noise
